@@ -2,6 +2,7 @@ package props
 
 import (
 	"fmt"
+	"math"
 	"strconv"
 	"strings"
 
@@ -162,6 +163,27 @@ func runC08(c *core.Ctx) {
 				return
 			}
 			c.Count("out_of_bounds_panics", 2)
+		}
+	}
+	// extreme coordinates: index arithmetic such as x+y*width must not wrap into range
+	for _, xy := range [][2]int{{math.MaxInt, 0}, {0, math.MaxInt}, {math.MaxInt, math.MaxInt}, {math.MinInt, 0}, {0, math.MinInt}, {math.MinInt, math.MinInt},
+		{math.MaxInt/2 + 1, 2}, {1, math.MaxInt/2 + 1}, {-1, math.MaxInt}, {w, math.MinInt}} {
+		pg, _ := core.Catch(func() { a.Get(xy[0], xy[1]) })
+		ps, _ := core.Catch(func() { a.Set(xy[0], xy[1], -7) })
+		pr, _ := core.Catch(func() { a.Row(xy[1]) })
+		if !pg || !ps || (!pr && (xy[1] < 0 || xy[1] >= h)) {
+			fail("out-of-bounds:no-panic[extreme]", fmt.Sprintf("Get/Set/Row with coordinates (%d,%d) outside %s: panicked get=%v set=%v row=%v", xy[0], xy[1], shape, pg, ps, pr))
+			return
+		}
+		if w > 0 && h > 0 {
+			if pf, _ := core.Catch(func() { a.Fill(0, 0, xy[0], xy[1], -9) }); !pf && (xy[0] < 0 || xy[0] >= w || xy[1] < 0 || xy[1] >= h) {
+				fail("Fill:out-of-bounds-no-panic[extreme]", fmt.Sprintf("Fill(0,0,%d,%d) did not panic", xy[0], xy[1]))
+				return
+			}
+			if psn, _ := core.Catch(func() { a.RowSpan(0, xy[0], 0) }); !psn && (xy[0] < 0 || xy[0] >= w) {
+				fail("RowSpan:out-of-range-no-panic[extreme]", fmt.Sprintf("RowSpan(0,%d,0) did not panic", xy[0]))
+				return
+			}
 		}
 	}
 	if !same("out-of-bounds", a, g) {
